@@ -6,10 +6,13 @@
 package main
 
 import (
+	"bufio"
+	"bytes"
 	"errors"
 	"fmt"
 	"io"
 	"math/rand"
+	"mime/multipart"
 	"net"
 	"strings"
 	"sync"
@@ -37,6 +40,13 @@ type desc struct {
 	Up       [][2]bool `json:"retry_if_err_upstream,omitempty"`
 	HasUp    bool      `json:"has_upstream,omitempty"`
 	Faults   []string  `json:"faults"`
+	Body     string    `json:"body,omitempty"`     // "" (SetBodyString for non-GET/HEAD) | raw | postargs | multipart | streamwriter (a body stream)
+	Deadline bool      `json:"deadline,omitempty"` // DoDeadline instead of DoTimeout
+	Via      string    `json:"via,omitempty"`      // "" HostClient | client (fasthttp.Client) | lb (LBClient over one HostClient; needs Timeout)
+	ConnDur  bool      `json:"conn_dur,omitempty"` // MaxConnDuration = 1ns: every attempt carries the "reset connection" marker
+	Twice    bool      `json:"twice,omitempty"`    // the observation is taken from a second use of the same Request/Response objects
+	RespNil  bool      `json:"resp_nil,omitempty"` // resp == nil
+	NoFree   bool      `json:"no_free,omitempty"`  // MaxConns = 1 and the connection is held by someone else: attempt 0 meets ErrNoFreeConns
 	fut      *future
 }
 
@@ -173,17 +183,25 @@ func tblCoq(t [][2]bool, has bool) string {
 	return hlib.Some(hlib.List(items))
 }
 
+type countRT struct{ n *atomic.Int64 }
+
+func (t countRT) RoundTrip(hc *fasthttp.HostClient, req *fasthttp.Request, resp *fasthttp.Response) (bool, error) {
+	t.n.Add(1)
+	return fasthttp.DefaultTransport.RoundTrip(hc, req, resp)
+}
+
+func isStream(d desc) bool { return d.Stream || d.Body == "streamwriter" }
+
 func exec(d desc) hlib.Case {
-	var dials, cb, late atomic.Int64
+	var dials, calls, cb, late atomic.Int64
 	var conns []*fconn
 	var mu sync.Mutex
 	var t0 time.Time
-	hc := &fasthttp.HostClient{Addr: "verif:80", MaxIdemponentCallAttempts: d.Max, MaxResponseBodySize: 10}
-	if d.RW > 0 {
-		hc.ReadTimeout = time.Duration(d.RW) * time.Millisecond
-		hc.WriteTimeout = time.Duration(d.RW) * time.Millisecond
-	}
-	hc.Dial = func(addr string) (net.Conn, error) {
+	var pre atomic.Bool
+	dial := func(addr string) (net.Conn, error) {
+		if pre.Load() {
+			return &fconn{fault: "none"}, nil
+		}
 		k := int(dials.Add(1)) - 1
 		if d.Timeout > 0 && time.Since(t0) > time.Duration(d.Timeout+100)*time.Millisecond {
 			late.Add(1)
@@ -209,37 +227,116 @@ func exec(d desc) hlib.Case {
 		mu.Unlock()
 		return c, nil
 	}
+	var retryIf fasthttp.RetryIfFunc
+	var retryIfErr fasthttp.RetryIfErrFunc
+	var retryUp fasthttp.RetryIfErrUpstreamFunc
 	if d.RetryIf != nil {
 		v := *d.RetryIf
-		hc.RetryIf = func(req *fasthttp.Request) bool { cb.Add(1); return v }
+		retryIf = func(req *fasthttp.Request) bool { cb.Add(1); return v }
 	}
 	if d.HasIfErr {
-		hc.RetryIfErr = func(req *fasthttp.Request, attempts int, err error) (bool, bool) {
+		retryIfErr = func(req *fasthttp.Request, attempts int, err error) (bool, bool) {
 			cb.Add(1)
 			return lookup(d.IfErr, attempts)
 		}
 	}
 	if d.HasUp {
-		hc.RetryIfErrUpstream = func(req *fasthttp.Request, attempts int, err error, upstream string) (bool, bool) {
+		retryUp = func(req *fasthttp.Request, attempts int, err error, upstream string) (bool, bool) {
 			cb.Add(1)
 			return lookup(d.Up, attempts)
 		}
 	}
+	rw := time.Duration(d.RW) * time.Millisecond
+	var connDur time.Duration
+	if d.ConnDur {
+		connDur = time.Nanosecond
+	}
+	type doer interface {
+		Do(*fasthttp.Request, *fasthttp.Response) error
+		DoTimeout(*fasthttp.Request, *fasthttp.Response, time.Duration) error
+		DoDeadline(*fasthttp.Request, *fasthttp.Response, time.Time) error
+	}
+	var cl doer
+	var hc *fasthttp.HostClient
+	closeIdle := func() {}
+	if d.Via == "client" {
+		c := &fasthttp.Client{Transport: countRT{&calls}, Dial: dial, MaxIdemponentCallAttempts: d.Max, MaxResponseBodySize: 10,
+			ReadTimeout: rw, WriteTimeout: rw, MaxConnDuration: connDur, RetryIf: retryIf, RetryIfErr: retryIfErr, RetryIfErrUpstream: retryUp}
+		cl = c
+		closeIdle = c.CloseIdleConnections
+	} else {
+		hc = &fasthttp.HostClient{Addr: "verif:80", Transport: countRT{&calls}, Dial: dial, MaxIdemponentCallAttempts: d.Max, MaxResponseBodySize: 10,
+			ReadTimeout: rw, WriteTimeout: rw, MaxConnDuration: connDur, RetryIf: retryIf, RetryIfErr: retryIfErr, RetryIfErrUpstream: retryUp}
+		cl = hc
+		closeIdle = hc.CloseIdleConnections
+		if d.Via == "lb" {
+			cl = &fasthttp.LBClient{Clients: []fasthttp.BalancingClient{hc}, Timeout: time.Hour}
+		}
+		if d.NoFree {
+			hc.MaxConns = 1
+			pre.Store(true)
+			if _, err := hc.AcquireConn(0, true); err != nil {
+				panic(err)
+			}
+			pre.Store(false)
+		}
+	}
 	req := fasthttp.AcquireRequest()
 	resp := fasthttp.AcquireResponse()
+	if d.RespNil {
+		fasthttp.ReleaseResponse(resp)
+		resp = nil
+	}
 	req.SetRequestURI("http://verif/x")
 	req.Header.SetMethod(d.Method)
-	if d.Stream {
+	switch {
+	case d.Stream:
 		req.SetBodyStream(strings.NewReader("hello"), 5)
-	} else if d.Method != "GET" && d.Method != "HEAD" && d.Method != "" {
+	case d.Body == "streamwriter":
+		req.SetBodyStreamWriter(func(w *bufio.Writer) { w.WriteString("hello") })
+	case d.Body == "raw":
+		req.SetBodyRaw([]byte("hello"))
+	case d.Body == "postargs":
+		req.PostArgs().Set("a", "b")
+		req.Header.SetContentType("application/x-www-form-urlencoded")
+	case d.Body == "multipart":
+		var buf bytes.Buffer
+		mw := multipart.NewWriter(&buf)
+		mw.SetBoundary("verifboundary")
+		mw.WriteField("a", "b")
+		mw.Close()
+		req.SetBody(buf.Bytes())
+		req.Header.SetContentType(mw.FormDataContentType())
+		if _, err := req.MultipartForm(); err != nil {
+			panic(err)
+		}
+	case d.Method != "GET" && d.Method != "HEAD" && d.Method != "":
 		req.SetBodyString("hello")
 	}
 	var err error
-	t0 = time.Now()
-	if d.Timeout > 0 {
-		err = hc.DoTimeout(req, resp, time.Duration(d.Timeout)*time.Millisecond)
-	} else {
-		err = hc.Do(req, resp)
+	once := func() {
+		t0 = time.Now()
+		switch {
+		case d.Timeout > 0 && d.Deadline:
+			err = cl.DoDeadline(req, resp, time.Now().Add(time.Duration(d.Timeout)*time.Millisecond))
+		case d.Timeout > 0:
+			err = cl.DoTimeout(req, resp, time.Duration(d.Timeout)*time.Millisecond)
+		default:
+			err = cl.Do(req, resp)
+		}
+	}
+	once()
+	if d.Twice {
+		// same Request / Response objects again, against the same fault script
+		closeIdle()
+		mu.Lock()
+		conns = nil
+		mu.Unlock()
+		dials.Store(0)
+		calls.Store(0)
+		cb.Store(0)
+		late.Store(0)
+		once()
 	}
 	sent := 0
 	mu.Lock()
@@ -256,14 +353,14 @@ func exec(d desc) hlib.Case {
 		rif = hlib.Some(hlib.Bool(*d.RetryIf))
 	}
 	cfg := fmt.Sprintf("{| max_attempts := %s; body_stream := %s; meth := %s; timeout := %s; rwtimeout := %s; retry_if := %s; retry_if_err := %s; retry_if_err_up := %s |}",
-		hlib.Z(int64(d.Max)), hlib.Bool(d.Stream), hlib.HexS(d.Method), hlib.Z(int64(d.Timeout)), hlib.Z(int64(d.RW)), rif, tblCoq(d.IfErr, d.HasIfErr), tblCoq(d.Up, d.HasUp))
+		hlib.Z(int64(d.Max)), hlib.Bool(isStream(d)), hlib.HexS(d.Method), hlib.Z(int64(d.Timeout)), hlib.Z(int64(d.RW)), rif, tblCoq(d.IfErr, d.HasIfErr), tblCoq(d.Up, d.HasUp))
 	fs := make([]string, len(d.Faults))
 	for i, f := range d.Faults {
 		fs[i] = faultCoq[f]
 	}
 	ec := errClass(err)
 	c := hlib.Case{Kind: ec, Size: len(d.Faults)}
-	c.Coq = hlib.App("CRetry", cfg, hlib.List(fs), hlib.Z(dials.Load()), hlib.Z(int64(sent)), ec, hlib.Z(cb.Load()), hlib.Z(late.Load()))
+	c.Coq = hlib.App("CRetry", cfg, hlib.List(fs), hlib.Z(calls.Load()), hlib.Z(int64(sent)), ec, hlib.Z(cb.Load()), hlib.Z(late.Load()))
 	cbk := "nocb"
 	switch {
 	case d.HasUp:
@@ -273,9 +370,12 @@ func exec(d desc) hlib.Case {
 	case d.RetryIf != nil:
 		cbk = fmt.Sprint("if", *d.RetryIf)
 	}
-	c.Sig = fmt.Sprintf("%s m%d s%v t%d/%d %s d%d t%d %s %s", d.Method, d.Max, d.Stream, d.Timeout, d.RW, cbk, dials.Load(), sent, ec, strings.Join(d.Faults, ","))
+	c.Sig = fmt.Sprintf("%s m%d s%v t%d/%d %s d%d t%d %s %s b%s v%s %v%v%v%v%v", d.Method, d.Max, isStream(d), d.Timeout, d.RW, cbk, calls.Load(), sent, ec,
+		strings.Join(d.Faults, ","), d.Body, d.Via, d.Deadline, d.ConnDur, d.Twice, d.RespNil, d.NoFree)
 	fasthttp.ReleaseRequest(req)
-	fasthttp.ReleaseResponse(resp)
+	if resp != nil {
+		fasthttp.ReleaseResponse(resp)
+	}
 	return c
 }
 
@@ -307,6 +407,24 @@ func bp(b bool) *bool { return &b }
 var methods = []string{"GET", "HEAD", "PUT", "POST", "DELETE", "PURGE", "get", ""}
 
 func sanitize(d desc) desc {
+	if d.NoFree {
+		d.Via = ""
+		d.Faults = append([]string{"acq"}, d.Faults...)
+	}
+	if d.Via == "lb" && d.Timeout == 0 {
+		d.Via = "" // LBClient.Do adds its own default timeout
+	}
+	if d.RespNil && d.HasUp {
+		// candidate finding (reported, see build/pending/C19-audit): Do(req, nil) with RetryIfErrUpstream set panics in
+		// resp.RemoteAddr() after the first retryable failure; not a retry-count question, so the generator stays clear of it
+		d.RespNil = false
+	}
+	if isStream(d) {
+		d.Twice = false // the stream is consumed by the first use
+	}
+	if d.Twice && d.Timeout == 40 {
+		d.Twice = false // keep wall time low
+	}
 	// a timeout fault needs some deadline to end
 	if d.Timeout == 0 && d.RW == 0 {
 		for i, f := range d.Faults {
@@ -333,6 +451,36 @@ func corpus() []desc {
 			add(desc{Method: m, Faults: six(f), HasIfErr: true, IfErr: [][2]bool{{false, true}, {false, false}, {false, true}}})
 			add(desc{Method: m, Faults: six(f), HasIfErr: true, HasUp: true, IfErr: [][2]bool{{false, true}, {false, true}}, Up: [][2]bool{{false, true}}})
 		}
+	}
+	// every way to give a request a body x client kinds x object reuse x the reset-connection marker
+	for _, m := range []string{"POST", "PUT", "GET", "DELETE"} {
+		for _, body := range []string{"raw", "postargs", "multipart", "streamwriter"} {
+			for _, f := range []string{"eof", "write1", "large"} {
+				add(desc{Method: m, Body: body, Faults: six(f)})
+				add(desc{Method: m, Body: body, Faults: six(f), RetryIf: bp(true), Via: "client"})
+				add(desc{Method: m, Body: body, Faults: six(f), HasIfErr: true, IfErr: [][2]bool{{false, true}, {false, true}}, Twice: true})
+			}
+		}
+		for _, via := range []string{"client", "lb"} {
+			add(desc{Method: m, Via: via, Timeout: 1000, RW: 5, Faults: six("rto")})
+			add(desc{Method: m, Via: via, Timeout: 1000, RW: 5, Deadline: true, Faults: []string{"eof", "garbage", "write1", "eof", "eof", "eof"}, HasUp: true, Up: [][2]bool{{false, true}, {false, true}, {false, true}}})
+			add(desc{Method: m, Via: via, Timeout: 40, Deadline: true, Faults: []string{"rto", "eof"}})
+			add(desc{Method: m, Via: via, Timeout: 40, Faults: []string{"rto", "rto", "eof"}, HasIfErr: true, IfErr: [][2]bool{{true, true}, {false, true}}})
+		}
+		add(desc{Method: m, Via: "client", Max: 2, Faults: six("eof"), RetryIf: bp(true)})
+		add(desc{Method: m, Via: "client", Faults: six("eof"), Stream: true})
+		add(desc{Method: m, ConnDur: true, Faults: six("eof"), RetryIf: bp(true)})
+		add(desc{Method: m, ConnDur: true, Twice: true, Faults: []string{"write1", "eof", "garbage"}, RetryIf: bp(true)})
+		add(desc{Method: m, RespNil: true, Faults: six("eof"), RetryIf: bp(true)})
+		add(desc{Method: m, RespNil: true, Faults: []string{"eof", "large", "eof"}, RetryIf: bp(true)})
+		add(desc{Method: m, NoFree: true, RetryIf: bp(true), HasIfErr: true, IfErr: [][2]bool{{false, true}}})
+		add(desc{Method: m, NoFree: true})
+		add(desc{Method: m, Timeout: 40, Deadline: true, Twice: false, Faults: []string{"rto", "eof"}, HasIfErr: true, IfErr: [][2]bool{{true, true}}})
+		add(desc{Method: m, Timeout: 1000, RW: 5, Twice: true, Faults: []string{"rto", "wto", "eof"}, RetryIf: bp(true)})
+		// precedence: RetryIfErrUpstream over RetryIfErr over RetryIf
+		add(desc{Method: m, Faults: six("eof"), RetryIf: bp(true), HasUp: true, Up: [][2]bool{{false, false}}})
+		add(desc{Method: m, Faults: six("eof"), RetryIf: bp(false), HasUp: true, Up: [][2]bool{{false, true}, {false, true}}})
+		add(desc{Method: m, Faults: six("eof"), RetryIf: bp(true), HasIfErr: true, IfErr: [][2]bool{{false, false}}, HasUp: true, Up: [][2]bool{{false, true}}})
 	}
 	for _, max := range []int{-1, 0, 1, 2, 5, 6, 7} {
 		add(desc{Method: "GET", Max: max, Faults: []string{"eof", "eof", "eof", "eof", "eof", "eof", "eof", "eof"}})
@@ -389,6 +537,21 @@ func gen(r *rand.Rand, i int) desc {
 	case 6:
 		d.HasIfErr, d.IfErr = true, randTbl(r)
 		d.RetryIf = bp(r.Intn(2) == 0)
+	}
+	if r.Intn(3) == 0 {
+		d.Body = hlib.Pick(r, []string{"raw", "postargs", "multipart", "streamwriter"})
+	}
+	if r.Intn(4) == 0 {
+		d.Via = hlib.Pick(r, []string{"client", "client", "lb"})
+	}
+	d.Deadline = r.Intn(3) == 0
+	d.ConnDur = r.Intn(6) == 0
+	d.Twice = r.Intn(6) == 0
+	d.RespNil = r.Intn(8) == 0
+	d.NoFree = r.Intn(25) == 0
+	if r.Intn(12) == 0 {
+		d.RetryIf = bp(r.Intn(2) == 0)
+		d.HasUp, d.Up = true, randTbl(r)
 	}
 	n := r.Intn(7)
 	for k := 0; k < n; k++ {
